@@ -61,6 +61,15 @@ func runSinkScenario(tr *sched.Tracer, sc *scenario, seed uint64) (*result, stri
 	defer func() { go erp.Cron.Stop() }() // a synchronous Stop can deadlock (krotik/common)
 	proc := erp.Processor
 	proc.ThreadPool().TooManyThreshold = math.MaxInt32
+	if seed&1 == 1 {
+		// what the command line interpreter does before every (re)load of a
+		// program: the sink default must survive it
+		proc.Finish()
+		if err := proc.Reset(); err != nil {
+			res.problem = "Reset of a stopped processor failed: " + err.Error()
+			return res, src
+		}
+	}
 	if !sc.failFirst {
 		proc.SetFailOnFirstErrorInTriggerSequence(false)
 	}
